@@ -1,1 +1,41 @@
-(* placeholder *)
+(* C06 - requests on a connection are numbered in order and dispatched concurrently.
+   ONLY statements.  The model is the labelled transition system of Sys.v:
+   every interleaving of the Run thread, any number of Stop calls, connection
+   goroutines, per-request goroutines (with arbitrary handler scripts) and the
+   environment (clients, barriers, slow OnClose).  [reachable cfg s]: s is the
+   result of some label sequence from the initial state.  The boolean fields
+   of [cfg] are the places where the pinned and the current tree differ;
+   [fixed_cfg] is the current tree (validated behaviourally on every run by the
+   scenario correspondence), [pinned_cfg] the tree before the fix commits. *)
+From G Require Import Base Sys SysProofs SysProps.
+Open Scope nat_scope.
+
+Theorem C06_numbering : forall cfg s i c, reachable cfg s -> conn_of s i c ->
+  (forall r k, In (r, k) (started c) -> 1 <= r <= nread c) /\ increasing (map fst (started c)) /\
+  (pc c = CRead -> nreq c = S (nread c)).
+Proof. exact c06_numbering. Qed.
+Print Assumptions C06_numbering.
+
+Theorem C06_dispatch : forall cfg s i c c' e k sc rest, reachable cfg s -> conn_of s i c ->
+  pc c = CRead -> input c = IReq k sc :: rest -> conn_step cfg s c = Some (c', e) ->
+  nread c' = S (nread c) /\
+  (started c' = started c ++ [(S (nread c), k)] \/ (k = KUnbind /\ has_unbind_route cfg = false /\ started c' = started c)).
+Proof. exact c06_dispatch. Qed.
+Print Assumptions C06_dispatch.
+
+Theorem C06_no_wait : forall cfg s c sc rest, cancelled s = false -> pc c = CRead -> input c = IReq KNormal sc :: rest ->
+  exists c', conn_step cfg s c = Some (c', ENone) /\ pc c' = CLoopTop /\
+             hs c' = hs c ++ [(nreq c, sc)] /\ inflight c' = S (inflight c).
+Proof. exact c06_no_wait. Qed.
+Print Assumptions C06_no_wait.
+
+Theorem C06_isolation : forall cfg s s' c,
+  cancelled s' = cancelled s -> released s' = released s -> onclose_held s' = onclose_held s ->
+  conn_step cfg s' c = conn_step cfg s c /\ forall r, handler_step cfg s' c r = handler_step cfg s c r.
+Proof. exact c06_isolation. Qed.
+Print Assumptions C06_isolation.
+
+Theorem C06_other_conns : forall cfg s l s' i, step cfg s l = Some s' ->
+  (l = LConn i \/ exists r, l = LHandler i r) -> forall j, j <> i -> nth_error (conns s') j = nth_error (conns s) j.
+Proof. exact c06_other_conns. Qed.
+Print Assumptions C06_other_conns.
